@@ -415,6 +415,7 @@ type pointSpec struct {
 }
 
 type batchSpec struct {
+	note   int // extra note recorded with the step (XNote), 0 = none
 	kind   int // 0 insert 1 update 2 delete
 	points []pointSpec
 	ids    []uuid.UUID
